@@ -145,6 +145,28 @@ func (u *vfC04Up) ServeDNS(ctx context.Context, ch *middleware.Chain) {
 				minTTL = 0 // expired signature: at most the floor, or not cached at all
 			}
 			resp.AuthenticatedData = true
+		case "wildcard-signed":
+			// a wildcard-expanded answer: the answer RRset with a long-lived signature, and in the authority section the
+			// NSEC that proves no closer match, signed separately - with a signature that may expire much earlier
+			resp.Answer = append(resp.Answer, &dns.A{Hdr: dns.RR_Header{Name: q.Name, Rrtype: dns.TypeA, Class: dns.ClassINET, Ttl: ttl}, A: net.IPv4(10, a, b, 7).To4()})
+			mk := func(owner string, covered uint16, labels uint8, left int) *dns.RRSIG {
+				exp := vfEpoch.Add(now).Add(time.Duration(left) * time.Second)
+				return &dns.RRSIG{Hdr: dns.RR_Header{Name: owner, Rrtype: dns.TypeRRSIG, Class: dns.ClassINET, Ttl: ttl}, TypeCovered: covered, Algorithm: 13, Labels: labels, OrigTtl: ttl,
+					Expiration: uint32(exp.Unix()), Inception: uint32(vfEpoch.Add(-time.Hour).Unix()), KeyTag: uint16(f.Idx), SignerName: "example.org.", Signature: "MDAwMDAwMDAwMDAwMDAwMDAwMDAwMDAwMDAwMDAwMDAwMDAwMDAwMDAwMDAwMDAwMDAwMDAwMDAwMDAwMDAwMA=="}
+			}
+			left := spec.SigLeft[n%len(spec.SigLeft)]
+			resp.Answer = append(resp.Answer, mk(q.Name, dns.TypeA, 2, 1000000))
+			resp.Ns = append(resp.Ns, &dns.NSEC{Hdr: dns.RR_Header{Name: "v.example.org.", Rrtype: dns.TypeNSEC, Class: dns.ClassINET, Ttl: ttl}, NextDomain: "x.example.org.", TypeBitMap: []uint16{dns.TypeA, dns.TypeRRSIG, dns.TypeNSEC}},
+				mk("v.example.org.", dns.TypeNSEC, 3, left))
+			use(ttl)
+			if left > 0 {
+				if d := time.Duration(left) * time.Second; d < minTTL {
+					minTTL = d
+				}
+			} else {
+				minTTL = 0
+			}
+			resp.AuthenticatedData = true
 		case "cname-nodata":
 			// what an authority serving alias and target from one zone returns when the target lacks the type: the
 			// alias, and the zone's SOA for the negative part - whose lifetime is the SOA's negative TTL (RFC 2308)
@@ -521,6 +543,8 @@ func vfC04GenCase(rt *rapid.T) *vfC04Case {
 		{Name: "aliasnd.example.org.", Qtype: dns.TypeA, Kind: "cname-nodata", Target: "nodata-t.example.org.", TTLs: []uint32{rapid.SampledFrom([]uint32{300, 3600}).Draw(rt, "ttl.aliasnd")},
 			SOATTL: rapid.SampledFrom([]uint32{300, 3600}).Draw(rt, "soattl3"), SOAMin: rapid.SampledFrom([]uint32{10, 60}).Draw(rt, "soamin3"), Scope: -1},
 		{Name: "nodata-t.example.org.", Qtype: dns.TypeA, Kind: "nodata", TTLs: []uint32{0}, SOATTL: 3600, SOAMin: 60, Scope: -1},
+		{Name: "w.wild.example.org.", Qtype: dns.TypeA, Kind: "wildcard-signed", TTLs: []uint32{rapid.SampledFrom([]uint32{60, 300, 3600}).Draw(rt, "ttl.wild")},
+			SigLeft: []int{rapid.SampledFrom([]int{-5, 7, 20, 100}).Draw(rt, "wildsigleft")}, Scope: -1},
 	}
 	if rapid.IntRange(0, 3).Draw(rt, "lateprefetch") == 0 {
 		// scripted skeleton of a late background refresh, with generated timings: fetch, age into the
